@@ -115,8 +115,11 @@ def proposal_view(dna, determined):
   if determined:
     return (dna.to_numbers(), 'auto-reward' if 'reward' in dna.metadata else '')
   # For stochastic algorithms only the phase of the next proposals is a function of the recovered state
-  # (a batch that was half proposed at the crash is not part of the history, so generation ids may differ).
-  return dict(initial_population=dna.metadata.get('initial_population'))
+  # (a batch that was half proposed at the crash is not part of the history, so generation ids may differ);
+  # the members of the INITIAL population, however, come from a seeded generator that is replayed from the history
+  # (in-flight proposals included), so they are compared exactly.
+  init = dna.metadata.get('initial_population')
+  return dict(initial_population=init, dna=dna.to_numbers() if init else None)
 
 
 def case_item(rec, item):
